@@ -29,7 +29,7 @@ func (e *memEngine) Impl(c Case) []string {
 	var ri *regInterp
 	for i, l := range c.Lines {
 		if strings.HasPrefix(l, "mem init ") {
-			ri = newRegInterp(ocimem.NewWithConfig(&ocimem.Config{ImmutableTags: strings.HasSuffix(l, " 1")}))
+			ri = newRegInterp(newMem(strings.HasSuffix(l, " 1")))
 			out[i] = "ok"
 			continue
 		}
@@ -278,6 +278,29 @@ func memDirected(rng *RNG) []Case {
 				lines = append(lines, fmt.Sprintf("mem resolveblob %s %s", tok(r), tok(dg)))
 			}
 			cases = append(cases, Case{Tag: "directed:mount-copy", Lines: lines})
+		}
+		// a committed upload's session lives on: cancelling it and writing to it again from the start
+		// must not reach the blob that was committed from it
+		for _, second := range []string{"HELLO", "HEL", "HELLO-and-more"} {
+			hello := []byte("hello")
+			hd := sha256Digest(hello)
+			cases = append(cases, Case{Tag: "directed:cancel-after-commit", Lines: []string{fmt.Sprintf("mem init %d", imm),
+				"mem pushchunked " + tok("a"),
+				fmt.Sprintf("mem wwrite %s %s %s", tok("a"), tok("@0"), tok("hello")),
+				fmt.Sprintf("mem wcommit %s %s %s", tok("a"), tok("@0"), tok(hd)),
+				linePushManifest("a", "t", mustJSON(ocispec.Manifest{MediaType: ocispec.MediaTypeImageManifest, Config: descJSON("application/octet-stream", hd, 5), Layers: []ocispec.Descriptor{descJSON("application/octet-stream", hd, 5)}}), ocispec.MediaTypeImageManifest),
+				fmt.Sprintf("mem wcancel %s %s", tok("a"), tok("@0")),
+				fmt.Sprintf("mem resume %s %s 0", tok("a"), tok("@0")),
+				fmt.Sprintf("mem wwrite %s %s %s", tok("a"), tok("@0"), tok(second)),
+				fmt.Sprintf("mem wsize %s %s", tok("a"), tok("@0")),
+				fmt.Sprintf("mem getblob %s %s", tok("a"), tok(hd)),
+				fmt.Sprintf("mem resume %s %s -1", tok("a"), tok("@0")),
+				fmt.Sprintf("mem wwrite %s %s %s", tok("a"), tok("@0"), tok(second)),
+				fmt.Sprintf("mem getblob %s %s", tok("a"), tok(hd)),
+				fmt.Sprintf("mem wcommit %s %s %s", tok("a"), tok("@0"), tok(sha256Digest([]byte("hello"+second)))),
+				fmt.Sprintf("mem getblob %s %s", tok("a"), tok(hd)),
+				fmt.Sprintf("mem gettag %s %s", tok("a"), tok("t")),
+			}})
 		}
 		// manifests whose bytes are a valid document followed by more
 		lines := []string{fmt.Sprintf("mem init %d", imm)}
